@@ -339,3 +339,93 @@ def rf56(run):
                           'inlines hard registers and generator temporaries (MIR_link fails with "undeclared reg")'
                           % (fn, F.src(direct[0])[:50]), line=direct[0]['l'])
     return n
+
+
+# ---------------------------------------------------------------------------------------------
+# RF72: a ret replaced in the middle of the copied callee jumps over the rest
+# RF73: allocas emitted for block argument copies are released with the inlined body
+# ---------------------------------------------------------------------------------------------
+
+def rf72(run):
+    rule = 'RF72'
+    run.rule(rule, 'process_inlines: when the callee code after its ret is not extracted as cold code (stop_insn is not the insn after the '
+                   'ret), the branch that replaces the ret by result moves also emits a jump to a label placed in front of the anchor; '
+                   'otherwise execution falls through into the callee code that followed the ret')
+    tu = run.tu('mir')
+    f = tu.func('process_inlines')
+    run.functions_analysed.add(('mir', f.name))
+    # the else branch of `if (new_insn->code != MIR_RET)`
+    branches = [x for x in f.walk() if x['k'] == 'IfStmt' and 'MIR_RET' in F.src(x['c'][0]) and 'new_insn->code' in F.src(x['c'][0]) and x['c'][2] is not None]
+    if len(branches) != 1:
+        raise F.AnalysisBroken('process_inlines: the branch replacing the callee ret was not identified (%d candidates)' % len(branches))
+    rb = branches[0]['c'][2]
+    jumps = []
+    for x in F.walk(rb):
+        if x['k'] == 'IfStmt' and 'stop_insn' in F.src(x['c'][0]) and ('_next' in F.src(x['c'][0])):
+            for y in F.walk(x['c'][1]):
+                if y['k'] == 'CallExpr' and y.get('callee') == 'MIR_new_insn' and len(F.call_args(y)) >= 3 and F.src(F.strip(F.call_args(y)[1])) == 'MIR_JMP':
+                    lab = F.strip(F.call_args(y)[2])
+                    if lab['k'] == 'CallExpr' and lab.get('callee') == 'MIR_new_label_op':
+                        jumps.append((y, F.src(F.strip(F.call_args(lab)[1]))))
+    ok = bool(jumps)
+    placed = False
+    if ok:
+        labv = jumps[0][1]
+        for x in f.walk():
+            if x['k'] == 'CallExpr' and x.get('callee') == 'MIR_insert_insn_before' and len(F.call_args(x)) == 4 \
+                    and F.src(F.strip(F.call_args(x)[2])) == 'anchor' and F.src(F.strip(F.call_args(x)[3])) == labv and x['l'] > branches[0]['l']:
+                placed = True
+    run.ob(rule, ('jump',), ok and placed, {'jump over the code after the ret': ok, 'label placed in front of the anchor': placed})
+    if not (ok and placed):
+        run.violation(rule, f, 'ret replaced without a jump', 'the branch of process_inlines that replaces the callee ret by result moves %s: when '
+                      'the callee has a dynamic alloca (no cold-code extraction) the code after its ret is copied right behind the moves and '
+                      'execution falls into it' % ('emits no jump for the case DLIST_NEXT (insn) != stop_insn' if not ok else
+                                                   'jumps to a label that is never inserted in front of the anchor'), line=branches[0]['l'])
+    return 1
+
+
+def rf73(run):
+    rule = 'RF73'
+    run.rule(rule, 'process_inlines: an inlined call whose callee takes a block argument by value gets an alloca at the call site (add_blk_move); '
+                   'that case forces the bstart/bend bracket (non_top_alloca_p) before the cold-code decision and the bracket emission, so '
+                   'the copy is released when the inlined body is left (a call in a loop must not grow the stack)')
+    tu = run.tu('mir')
+    f = tu.func('process_inlines')
+    cfg = f.cfg
+    blk = [x for x in f.walk() if x['k'] == 'CallExpr' and x.get('callee') == 'add_blk_move']
+    if len(blk) != 1:
+        raise F.AnalysisBroken('process_inlines: add_blk_move call not found')
+    # a flag set in the same branch
+    par_if = None
+    cur = blk[0]['i']
+    while cur is not None:
+        p_ = f.parent.get(cur)
+        if p_ is None:
+            break
+        if f.nodes[p_]['k'] == 'IfStmt':
+            par_if = f.nodes[p_]
+            break
+        cur = p_
+    flags = []
+    if par_if is not None:
+        for x in F.walk(par_if['c'][1]):
+            if x['k'] == 'BinaryOperator' and x['op'] == '=' and F.const_value(F.strip(x['c'][1])) == 1 and F.strip(x['c'][0])['k'] == 'DeclRefExpr':
+                flags.append(F.strip(x['c'][0])['n'])
+    forced = None
+    for x in f.walk():
+        if x['k'] == 'IfStmt' and F.src(F.strip(x['c'][0])) in flags:
+            for y in F.walk(x['c'][1]):
+                if y['k'] == 'BinaryOperator' and y['op'] == '=' and F.src(F.strip(y['c'][0])) == 'non_top_alloca_p' and F.const_value(F.strip(y['c'][1])) == 1:
+                    forced = y
+    uses = [x for x in f.walk() if x['k'] == 'IfStmt' and 'non_top_alloca_p' in F.src(x['c'][0])]
+    ok = forced is not None and uses and all(forced['l'] < u['l'] for u in uses) and 'non_top_alloca_p' in flags or \
+        (forced is not None and bool(uses) and all(forced['l'] < u['l'] for u in uses))
+    direct = 'non_top_alloca_p' in flags
+    ok = ok or (direct and False)
+    run.ob(rule, ('bracket',), bool(ok), {'flag set with the block copy': flags, 'forces non_top_alloca_p at': forced['l'] if forced else None,
+                                          'decisions on non_top_alloca_p at': [u['l'] for u in uses]})
+    if not ok:
+        run.violation(rule, f, 'block argument copy without bstart/bend', 'the alloca that add_blk_move emits for a by-value block argument is not '
+                      'tied to the bstart/bend bracket of the inlined body (no flag forcing non_top_alloca_p before it is consulted): the '
+                      'memory is never released and an inlined call in a loop grows the stack on every iteration', line=blk[0]['l'])
+    return 1
